@@ -885,16 +885,27 @@ static char *detect_include_guard(Token *tok) {
   return NULL;
 }
 
+// The key under which a file is remembered: one file reached under
+// several names ("po.h", "./po.h", a symbolic link) has one key.
+static char *file_key(char *path) {
+  struct stat st;
+  if (stat(path, &st))
+    return path;
+  return format("%ld:%ld", (long)st.st_dev, (long)st.st_ino);
+}
+
 static Token *include_file(Token *tok, char *path, Token *filename_tok, int include_idx) {
+  char *key = file_key(path);
+
   // Check for "#pragma once"
-  if (hashmap_get(&pragma_once, path))
+  if (hashmap_get(&pragma_once, key))
     return tok;
 
   // If we read the same file before, and if the file was guarded
   // by the usual #ifndef ... #endif pattern, we may be able to
   // skip the file without opening it.
   static HashMap include_guards;
-  char *guard_name = hashmap_get(&include_guards, path);
+  char *guard_name = hashmap_get(&include_guards, key);
   if (guard_name && hashmap_get(&macros, guard_name))
     return tok;
 
@@ -906,7 +917,7 @@ static Token *include_file(Token *tok, char *path, Token *filename_tok, int incl
 
   guard_name = detect_include_guard(tok2);
   if (guard_name)
-    hashmap_put(&include_guards, path, guard_name);
+    hashmap_put(&include_guards, key, guard_name);
 
   return append(tok2, tok);
 }
@@ -1078,7 +1089,7 @@ static Token *preprocess2(Token *tok) {
     }
 
     if (equal(tok, "pragma") && equal(tok->next, "once")) {
-      hashmap_put(&pragma_once, tok->file->name, (void *)1);
+      hashmap_put(&pragma_once, file_key(tok->file->name), (void *)1);
       tok = skip_line(tok->next->next);
       continue;
     }
